@@ -2,6 +2,7 @@
 from __future__ import annotations
 
 import ast
+import os
 from typing import Any, Dict, List, Optional, Set, Tuple
 
 from ..core import astutil as A
@@ -313,6 +314,46 @@ def rule_fresh_derived(ctx) -> None:
         raise AnalysisError("C12.fresh-derived: embedded positive example no longer matches")
 
 
+
+def rule_template_yaml(ctx, db) -> None:
+    """C12.template-yaml: the template dumper never folds a mapping key (a plain key folded over two lines is not valid YAML)."""
+    import yaml as _yaml
+    chk, prog = ctx.chk, ctx.prog
+    SV = "spsdk/utils/schema_validator.py"
+    f = ctx.own(SV, "CommentedConfig", "convert_cm_to_yaml")
+    w = [s.value for s in A.walk_no_nested(f.node) if isinstance(s, ast.Assign) and isinstance(s.targets[0], ast.Attribute) and s.targets[0].attr == "width"]
+    width = prog.fold(w[0], f.module) if len(w) == 1 else 80  # ruamel's default best_width
+    dumps = [c for c in A.calls_in(f.node, "dump")]
+    order_ok = bool(dumps) and (not w or w[0].lineno < dumps[0].lineno)
+    # longest key the database can put into a template: TrustZone preset names (indented by one level)
+    longest, where, n = 0, "", 0
+    seen = set()
+    for dev, rev, tz in db.iter_features("tz"):
+        rs = tz.get("reg_spec")
+        if not rs:
+            continue
+        rp = db.data_file(dev, rs) or db.data_file(dev, os.path.basename(rs))
+        if rp is None:
+            cand = f"spsdk/data/{rs}" if not rs.startswith("spsdk/") else rs
+            rp = cand if ctx.repo.exists(cand) else None
+        if rp is None or rp in seen:
+            continue
+        seen.add(rp)
+        try:
+            data = _yaml.load(ctx.repo.read(rp), Loader=getattr(_yaml, "CSafeLoader", _yaml.SafeLoader)) if rp.endswith((".yaml", ".yml")) else db.load_json(rp)
+        except Exception as e:  # noqa
+            raise AnalysisError(f"C12.template-yaml: cannot read {rp}: {e}")
+        for k in (data or {}):
+            n += 1
+            if len(str(k)) > longest:
+                longest, where = len(str(k)), f"{rp}: {k}"
+    if n == 0:
+        raise AnalysisError("C12.template-yaml: no TrustZone preset names found in the database")
+    need = longest + 2 + 2  # indentation + ': '
+    chk.decide(isinstance(width, int) and width > need and order_ok, "C12.template-yaml", f.qual, f"dump width {width} exceeds the longest template key ({longest} characters: {where[:90]}) of {n} preset names in {len(seen)} files",
+               f"dump width {width} (set before dump: {order_ok}) but the longest key needs {need} columns ({where[:110]}): ruamel folds the key over two lines and the template no longer loads", "yaml.width larger than any key", A.loc(SV, f.node))
+
+
 def run(ctx) -> None:
     ctx.chk.explain("C12: every register specification referenced by any (device, revision, feature, sub-feature/memory type) of the database is loaded as data and linted: bit-fields "
                     "fit registers, resets and enum values fit their widths, memory-laid-out areas have no overlapping registers, fit their declared/class size and have unique uids; "
@@ -329,6 +370,7 @@ def run(ctx) -> None:
     ctx.rule(rule_segment_base)
     ctx.rule(rule_revision_flow)
     ctx.rule(rule_fresh_derived)
+    ctx.rule(rule_template_yaml, db)
     ctx.chk.assumptions = ["hardware layouts are as the specs state (3 IFR spec files with overlapping registers are known findings)", "register arithmetic itself is decided in C11",
                            "not decided: schema validity of generated templates, parse(export) identity at value level, verifier acceptance"]
 
